@@ -32,12 +32,19 @@ class History:
         self.index = index
         served = NAMESPACES[:rng.choice([1, 2, 3, 4])]
         self.served = served
+        # some connections are refused by the application's connect handler
+        # (with and without always_connect): a refused client is in no room
+        script = {ns: [rng.choice(['accept'] * 7 + ['false', ['refuse', 'no']])
+                       for _ in range(40)] for ns in NAMESPACES + ['/zz']}
         self.cfg = S.default_config(
             kind=kind, served=served,
             serializer=rng.choice(['default', 'default', 'msgpack']),
             async_handlers=False,
+            always_connect=rng.random() < 0.4,
+            connect_script=script,
             namespaces_opt=rng.choice([None, '*', served]),
             coroutines=rng.random() < 0.7)
+        self.script = {ns: list(v) for ns, v in script.items()}
         self.r = S.Runner(self.cfg)
         self.m = RoomsModel()
         self.owner = {}          # sid -> (T, ns)
@@ -210,6 +217,20 @@ class History:
             already = any(o == (T, ns) for s, o in self.owner.items()
                           if m.connected(s, o[1]))
             acc = [p for p in sent.get(T, []) if p['type'] == R.CONNECT]
+            ran = [e for e in res.get('events', [])
+                   if e[0] == 'handler' and e[1] == 'connect']
+            if ran:
+                beh = self.script[ns].pop(0) if self.script.get(ns) \
+                    else 'accept'
+                if beh not in ('accept', 'true'):
+                    # refused: whatever was sent (CONNECT_ERROR, or CONNECT +
+                    # DISCONNECT with always_connect), the client is not
+                    # connected and in no room from now on
+                    ctx.count('connects_refused_by_handler')
+                    for p in acc:
+                        self.dead.append((p['data']['sid'], ns))
+                    self.refused_T = getattr(self, 'refused_T', set())
+                    return self.after_op(res, kind, op)
             if ns in self.served and not already and \
                     T in self.open_T:
                 if len(acc) != 1:
@@ -320,6 +341,10 @@ class History:
             ctx.case(sig, {'op': op, 'recipients': sorted(
                 (k[1], k[2]) for k in want), 'kind': self.kind}
                 if nrec else None, nontrivial=True)
+        return self.after_op(res, kind, op)
+
+    def after_op(self, res, kind, op):
+        ctx, m = self.ctx, self.m
         # rooms() for a few sids after every operation
         cands = sorted(m.all_sids())
         probe = []
@@ -393,6 +418,7 @@ def run(ctx):
     ctx.require('room_ops', 20)
     ctx.require('disconnects', 5)
     ctx.require('clients_found_dead_during_emit', 3)
+    ctx.require('connects_refused_by_handler', 5)
     # threaded server: emits racing with membership changes made by other
     # threads (controlled scheduler)
     from checks import c03_sched
